@@ -77,24 +77,42 @@ def h_perm(params, vals, ctx):
     for v, (lo, hi) in (params.get("ranges") or {}).items():
         require(lo <= vals[v] <= hi)
     t1, t2 = params["canonical"], params["variant"]
-    o1 = assemble([("a.mac", t1)], vals, route=ctx.route)
-    o2 = assemble([("a.mac", t2)], vals, route=ctx.route)
+    pre = [tuple(f) for f in (params.get("prefix_files") or [])]   # other source files linked ahead of the one under test
+    o1 = assemble(pre + [("a.mac", t1)], vals, route=ctx.route)
+    o2 = assemble(pre + [("a.mac", t2)], vals, route=ctx.route)
     ctx.observe_outcome(o1)
     ctx.observe_outcome(o2)
     ctx.reach(o1.status == "ok" and o2.status == "ok")
     if not same(o1, o2):
         return False
+    if params.get("expect_fail_when") is not None:
+        # the failure itself is part of the outcome: it may not depend on the order either (an unused failing constant included)
+        var, value = params["expect_fail_when"]
+        if (vals[var] == value) != (o1.status == "failed") or (vals[var] == value) != (o2.status == "failed"):
+            return False
     exp = params.get("expect")
     if exp and o1.status == "ok":
         # final value of a symbol by the closed form of the chain: [const, coefA, coefC]
         name, (c0, ca, cc) = exp
         want = c0 + ca * vals.get("A", 0) + cc * vals.get("C", 0)
-        if not (o1.symbol(name) == want and o2.symbol(name) == want):
+        fi = 1 + len(pre)
+        if not (o1.symbol(name, fi) == want and o2.symbol(name, fi) == want):
             return False
     return True
 
 
+def _link_through_inner(e):
+    """A base promise whose value is 'K1 + K2 * (label of an inner file - own label)'; the inner file's base was settled with 'own base + 2'."""
+    from pdpy11.deferred import Promise, Deferred
+    root, inner = Promise(int, "LA1"), Promise(int, "LA2")
+    lab_root, lab_inner = root + e["C0"], inner + 4
+    inner.settle(root + 2)
+    root.settle(Deferred(int, lambda: e["K1"] + e["K2"] * (lab_inner - lab_root)))
+    return lab_inner + 0, e["K1"] + e["K2"] * (6 - e["C0"]) + 6
+
+
 ALGEBRA = {
+    "link-through-inner-promise": _link_through_inner,
     # name: function(env) -> (deferred expression built with pdpy11's own operators, expected integer)
     "scaled-pending":        lambda e: (e["K1"] * e["x"] + e["C0"], e["K1"] * e["A"] + e["C0"]),
     "difference-of-pending": lambda e: (e["K1"] * e["x"] - e["K2"] * e["y"] + e["C0"], e["K1"] * e["A"] - e["K2"] * e["B"] + e["C0"]),
@@ -107,6 +125,8 @@ ALGEBRA = {
     "promise-cancels":       lambda e: (e["K1"] * ((e["P"] + 12) - e["P"]) + e["C0"], 12 * e["K1"] + e["C0"]),
     "promise-before-after":  lambda e: ((e["late"] - e["early"]) * e["K1"], 6 * e["K1"]),
     "promise-value":         lambda e: (e["late"] + e["K1"] * e["early"], (e["B"] + 6) + e["K1"] * e["B"]),
+    "nested-promise-cancels": lambda e: (e["K1"] * (e["qlate"] - e["qearly"]) + e["K2"] * (e["qlate"] - e["late"]) + e["C0"], e["K1"] * 1 + e["K2"] * (4 + 2 - 6) + e["C0"]),
+    "nested-promise-value":  lambda e: (e["qlate"] + e["K2"] * e["qearly"] - e["K1"] * e["P"], (e["B"] + 6) + e["K2"] * (e["B"] + 5) - e["K1"] * e["B"]),
     "neg-neg":               lambda e: (-(-(e["K1"] * e["x"] - e["y"])), e["K1"] * e["A"] - e["B"]),
     "sum-same-variable":     lambda e: (e["x"] + e["x"] - 2 * e["x"] + e["K1"] * e["x"], e["K1"] * e["A"]),
 }
@@ -137,7 +157,11 @@ def h_algebra(params, vals, ctx):
     early = P + 0 if params.get("early_poly") else P   # written before the promise is settled
     P.settle(Deferred(int, pending("y")))
     late = P + 6                                    # written after it was settled
-    env = {"x": x, "y": y, "z": z, "zz": zz, "P": P, "early": early, "late": late, "A": a, "B": b, "K1": k1, "K2": k2, "C0": c0}
+    Q = Promise(int, "LA-inner")                    # a promise settled with 'other promise + offset' (an include in the middle of its parent)
+    qearly = Q + 1
+    Q.settle(P + 4)
+    qlate = Q + 2
+    env = {"Q": Q, "qearly": qearly, "qlate": qlate, "x": x, "y": y, "z": z, "zz": zz, "P": P, "early": early, "late": late, "A": a, "B": b, "K1": k1, "K2": k2, "C0": c0}
     expr, expected = ALGEBRA[params["shape"]](env)
     known["x"], known["y"] = a, b                   # everything becomes known only now
     got = wait(expr)
@@ -193,6 +217,32 @@ def obligations(tier, seed):
                         ("mixed", pend[1:3] + use + pend[:1] + pend[3:]), ("deps-last", pend[3:] + use + pend[1:3] + pend[:1])):
         obs.append(_ob(f"pending-products/{oname}", can, "\n".join(text) + "\n", ["A", "C"], ranges={"A": [-1000, 1000], "C": [-1000, 1000]},
                        expect=None))
+    # a constant nobody refers to whose expression fails once its (later defined) inputs are known: the failure is part of the outcome
+    udefs = ["unit = {A}", "span = unit - 1", "quot = 100. / span + 1", "aux = unit * 3 + 2"]
+    uuse = ["mov #span, r0", ".word unit"]
+    ucan = "\n".join(udefs + uuse) + "\n"
+    uperms = list(itertools.permutations(range(4)))
+    if tier == "quick":
+        rnd.shuffle(uperms)
+        uperms = list(dict.fromkeys(uperms[:6] + [(1, 2, 3, 0), (1, 2, 0, 3), (3, 2, 1, 0), (2, 1, 0, 3)]))
+    for p in uperms:
+        for pl in ("before", "after"):
+            d = [udefs[i] for i in p]
+            var = "\n".join((d + uuse) if pl == "before" else (uuse + d)) + "\n"
+            if var == ucan:
+                continue
+            obs.append(_ob(f"unused-failing/{''.join(map(str, p))}-{pl}", ucan, var, ["A"], expect_fail_when=["A", 1], ranges={"A": [-1000, 1000]}))
+    # the same name exported by a file linked earlier: the file's own (later) definition still wins, wherever it is placed
+    other = [["o.mac", "lim == {C}\n.word lim\n"]]
+    sdefs = ["lim = {A}", "size = lim * 2 + 1"]
+    suse = ["mov #lim, r0", ".word size, lim", ".byte lim, 0"]
+    scan = "\n".join(sdefs + suse) + "\n"
+    for oname, lines in (("use-first", suse + sdefs), ("use-first-reversed", suse + sdefs[::-1]), ("middle", suse[:1] + sdefs[1:] + suse[1:] + sdefs[:1]),
+                         ("dependent-first", sdefs[::-1] + suse)):
+        for link in (False, True):
+            pre_l = [".link {B}"] if link else []
+            obs.append(_ob(f"shadowed-export/{oname}" + ("/linked" if link else ""), "\n".join(pre_l + sdefs + suse) + "\n", "\n".join(pre_l + lines) + "\n",
+                           ["A", "C"] + (["B"] if link else []), prefix_files=other, ranges={"A": [0, 100], "C": [-1000, 1000]}, expect=["size", [1, 2, 0]]))
     for shape in ALGEBRA:
         for early_poly in (False, True):
             if early_poly and "early" not in ALGEBRA[shape].__code__.co_consts and shape not in ("promise-before-after", "promise-value"):
